@@ -153,6 +153,37 @@ def nested_harnesses(d, base):
     return "".join(out), hs
 
 
+CUSTOM = '''
+pub mod custom_%(ty)s {
+    use super::*;
+    use nutype::nutype;
+    use crate::support::de::*;
+    use serde::Deserialize;
+    static mut MASK: %(bty)s = 0;
+    #[derive(Debug, Clone, PartialEq)] pub struct MyErr;
+    impl core::fmt::Display for MyErr { fn fmt(&self, _f: &mut core::fmt::Formatter<'_>) -> core::fmt::Result { Ok(()) } }
+    fn vfn(x: &%(ty)s) -> Result<(), MyErr> { if (%(bits)s & unsafe { MASK }) != 0 { Ok(()) } else { Err(MyErr) } }
+    /// custom validation, NO sanitizer
+    #[nutype(validate(with = vfn, error = MyErr), derive(Debug, Deserialize))]
+    pub struct N(%(ty)s);
+    #[kani::proof]
+    #[kani::unwind(4)]
+    pub fn c04_custom_%(ty)s() {
+        unsafe { MASK = kani::any(); }
+        let ev = %(ev)s;
+        let inner = <%(ty)s as Deserialize>::deserialize(StubDe::new(ev));
+        let got = <N as Deserialize>::deserialize(StubDe::new(ev));
+        kani::cover!(got.is_ok()); kani::cover!(got.is_err() && inner.is_ok());
+        match (inner, got) {
+            (Err(_), g) => assert!(g.is_err()),
+            (Ok(x), Ok(v)) => { assert!(vfn(&x).is_ok(), "deserialized a value the custom validator rejects"); assert!(%(eq)s); }
+            (Ok(x), Err(_)) => assert!(vfn(&x).is_err(), "deserialization failed although the custom validator accepts the value"),
+        }
+    }
+}
+'''
+
+
 def generate(tier, seed):
     rng = random.Random(seed)
     plan = Plan("C04")
@@ -193,6 +224,12 @@ def generate(tier, seed):
                             plan.add(h)
                     src.append("pub mod %s {\n    use super::*;\n    use nutype::nutype;\n    %s\n    %s\n%s\n%s}\n" % (m, USE, d.prelude(), indent(d.attr()), hsrc))
     src.append(strprops.gen_c04(plan, tier, rng))
+    for ty in (["i32", "f64"] if tier == "quick" else ["i8", "u16", "i32", "u64", "f32", "f64"]):
+        fl = is_float(ty)
+        src.append(CUSTOM % dict(ty=ty, bty=UBITS.get(ty, ty), bits="x.to_bits()" if fl else "*x",
+                                 ev="Ev::F64(kani::any())" if fl else ("Ev::I64(kani::any())" if is_signed(ty) else "Ev::U64(kani::any())"),
+                                 eq="v.into_inner().to_bits() == x.to_bits()" if fl else "v.into_inner() == x"))
+        plan.add(H("c04_custom_%s" % ty, "main", {"type": ty, "validation": "custom with/error, no sanitizer"}))
     plan.source = "\n".join(src)
     plan.features = []
     plan.bounds = {"events": "one harness per (declaration, event kind): u8..u64, i8..i64, f32, f64, bool, char, unit, none, some(prim), seq of <=2 prims, a text event, all payload values; u128/i128 events only for 128-bit inner types (serde formats the number for smaller targets)",
